@@ -35,7 +35,8 @@ def find_demo(d):
 
 def run_demo(d, wt, demo):
     env = {"MUNGE_TREE": wt, "WT": wt, "REPO": wt, "LD_LIBRARY_PATH": wt + "/src/libmunge/.libs"}
-    cmd = ("bash %s" % demo) if demo.endswith(".sh") else ("python3 %s" % demo)
+    demo = os.path.join(os.path.abspath(d), demo)
+    cmd = ("bash %s" % demo) if demo.endswith(".sh") else ("/usr/bin/python3 %s" % demo)
     return sh(cmd, cwd=d, timeout=600, env=env)
 
 
